@@ -67,7 +67,14 @@ impl Visitor<StatementPos> for InstructionGenerator {
                 self.push(Instruction::Jump(AddressOrLabel::Unresolved(name)), pos);
             }
             Statement::GoSub(label) => {
-                self.push(Instruction::GoSub(AddressOrLabel::Unresolved(label)), pos);
+                self.push(
+                    Instruction::GoSub(
+                        AddressOrLabel::Unresolved(label),
+                        self.for_depth,
+                        self.select_depth,
+                    ),
+                    pos,
+                );
             }
             Statement::Resume(resume_option) => match resume_option {
                 ResumeOption::Bare => {
@@ -90,8 +97,16 @@ impl Visitor<StatementPos> for InstructionGenerator {
                 }
             },
             Statement::Return(opt_label) => {
+                let (for_depth, select_depth) = opt_label
+                    .as_ref()
+                    .and_then(|label| self.label_depths.get(label).copied())
+                    .unwrap_or((0, 0));
                 self.push(
-                    Instruction::Return(opt_label.map(AddressOrLabel::Unresolved)),
+                    Instruction::Return(
+                        opt_label.map(AddressOrLabel::Unresolved),
+                        for_depth,
+                        select_depth,
+                    ),
                     pos,
                 );
             }
